@@ -135,6 +135,20 @@ def tree_lines(ctx, label, sizes=True):
         c = gen.rand_cfg(rng, algorithm=0, stopflags=False, wantSub=0)
         c[1], c[16] = 1, 1
         lines.append("%s 0 %s %s" % (gen.cfg_line(c), mat_line(M), script()))
+    # every 5x5 0/1 matrix that passes the row/column count test of the R10 shortcut (most of them are not R10: the ones with
+    # two equal rows or columns in any position), alone and as a block of a permuted 1-sum with a network matrix
+    pats = gen.r10_pattern_matrices()
+    for idx, M in enumerate(pats):
+        if q and idx % 3:
+            continue
+        c = gen.rand_cfg(rng, algorithm=0, stopflags=False, wantSub=0)
+        c[1], c[16] = 0, 1
+        c[8], c[10] = (idx // 3) % 2, (idx // 6) % 2
+        lines.append("%s 1 %s %s" % (gen.cfg_line(c), mat_line(M, 5, 5), script()))
+        if idx % (12 if q else 3) == 0:
+            A = [[abs(x) for x in r] for r in gen.network_matrix(rng, 3 + rng.below(3), 2 + rng.below(3))]
+            S = gen.permute(rng, gen.block_diag(A, M))
+            lines.append("%s 1 %s 0" % (gen.cfg_line(c), mat_line(S)))
     # 2-sums of network matrices with the direct graphicness test switched off: the node is not recognized at once, gets a
     # sequence of nested minors, and its 2-separation is found while that sequence is extended (after pivots of the dense
     # working matrix) - a path of the decomposition the default parameters almost never take
